@@ -17,19 +17,19 @@ L = re.escape(S + "*Policy.sanitize/")
 TABLE = [
     (re.escape(S) + r"\*Policy\.(Sanitize|SanitizeBytes|SanitizeReader|SanitizeReaderToWriter|sanitizeWithBuff)$", "C01 C02 C03 C04 C05 C06 C07 C08 C09 C10 C11 C12 C14 C15 C16 C20"),
     (r"sanitize\.go/(func/\*asStringWriter\.WriteString|type/asStringWriter|type/stringWriterWriter)$", "C15 C16"),
-    (L + r"around-switch$", "C01 C02 C05 C06 C07 C08 C09 C14 C15 C16"),
+    (L + r"around-switch$", "C01 C02 C04 C05 C06 C07 C08 C09 C14 C15 C16"),
     (L + r"case:html\.DoctypeToken$", "C01"),
     (L + r"case:html\.CommentToken$", "C01 C05 C06 C08 C09 C16"),
-    (L + r"case:html\.StartTagToken$", "C01 C02 C05 C06 C07 C08 C09 C14"),
-    (L + r"case:html\.EndTagToken$", "C01 C05 C06 C07 C08 C09 C14"),
-    (L + r"case:html\.SelfClosingTagToken$", "C01 C02 C05 C07 C08 C09 C14"),
-    (L + r"case:html\.TextToken$", "C05 C06 C08"),
+    (L + r"case:html\.StartTagToken$", "C01 C02 C04 C05 C06 C07 C08 C09 C14"),
+    (L + r"case:html\.EndTagToken$", "C01 C04 C05 C06 C07 C08 C09 C14"),
+    (L + r"case:html\.SelfClosingTagToken$", "C01 C02 C04 C05 C06 C07 C08 C09 C14"),
+    (L + r"case:html\.TextToken$", "C04 C05 C06 C08"),
     (L + r"case:default$", "C14"),
-    (A + r"(signature|if:len\(attrs\) == 0|return)$", "C02"),
+    (A + r"(signature|if:len\(attrs\) == 0|return)$", "C02 C04"),
     (A + r"(assign:hasStylePolicies|assign:sps|if:len\(p\.globalStyles\).*|if:!hasStylePolicies)$", "C02 C10"),
-    (A + r"assign:cleanAttrs$", "C02"),
-    (A + r"label:attrsLoop$", "C02 C07 C10 C13 C14"),
-    (A + r"if:len\(cleanAttrs\) == 0$", "C02"),
+    (A + r"assign:cleanAttrs$", "C02 C04"),
+    (A + r"label:attrsLoop$", "C02 C04 C07 C10 C13 C14"),
+    (A + r"if:len\(cleanAttrs\) == 0$", "C02 C04"),
     (A + r"if:linkable\(elementName\)/if:p\.requireParseableURLs$", "C03 C04 C14 C20"),
     (A + r"if:linkable\(elementName\)/if:\(p\.requireNoFollow.*$", "C11 C20"),
     (A + r"if:p\.requireCrossOriginAnonymous.*$", "C12 C20"),
@@ -44,7 +44,7 @@ TABLE = [
     (re.escape(S) + r"isDataAttribute$", "C02"),
     (re.escape(S) + r"removeUnicode$", "C10 C14"),
     (re.escape(S) + r"\*Policy\.matchRegex$", "C01 C02 C07 C13"),
-    (re.escape(S) + r"normaliseElementName$", "C01 C05 C07"),
+    (re.escape(S) + r"normaliseElementName$", "C01 C04 C05 C06 C07 C08"),
     (r"sanitize\.go/var/dataAttribute.*$", "C02 C03 C10"),
     (r"sanitize\.go/const/keptTagMarker$", "C09"),
     (r"policy\.go/(func|type|const)/.*$", "C17"),
